@@ -67,7 +67,7 @@ def run(ctx):
         out = {}
         mcs = ctx.pick(["MC_Proc_Libp2p", "MC_Life_Local"],
                        ["MC_Proc_Libp2p", "MC_Proc_Local", "MC_Life_Libp2p", "MC_Life_Local",
-                        "MC_Thorough_Libp2p", "MC_Thorough_Deep", "MC_Thorough_Local"])
+                        "MC_Thorough_Libp2p", "MC_Thorough_Deep"])
         for cfg in mcs:
             r = ctx.tlc(SPEC, "Broadcast", cfg=cfg, coverage=True, label=cfg, timeout=ctx.pick(600, 3000))
             acts = list(ALL_ACTIONS)
@@ -84,6 +84,14 @@ def run(ctx):
         if ctx.thorough:
             ctx.tlc(SPEC, "DupFilter", cfg="MC_DupFilterHazard", label="MC_DupFilterHazard", expect=("violation",), dump_trace=False)
         return out
+
+    # the largest exhaustive configuration (thorough tier) runs beside the others
+    def model_checking_big():
+        if not ctx.thorough:
+            return None
+        r = ctx.tlc(SPEC, "Broadcast", cfg="MC_Thorough_Local", coverage=True, label="MC_Thorough_Local", timeout=3000)
+        ctx.require_coverage(r, ALL_ACTIONS, "MC_Thorough_Local")
+        return r.distinct
 
     # The trace specs are explored depth-first and stop TLC (TLCSet("exit")) on the first path that consumes the whole
     # trace; a search that ends without such a path fails the postcondition: the trace is rejected.
@@ -161,12 +169,14 @@ def run(ctx):
         res["traces"].append(("trace_filter", tp, ok, tr))
         return res
 
-    with concurrent.futures.ThreadPoolExecutor(max_workers=4) as ex:
+    with concurrent.futures.ThreadPoolExecutor(max_workers=5) as ex:
+        f_big = ex.submit(model_checking_big)
         f_mc = ex.submit(model_checking)
         f_p2p = ex.submit(channel, "libp2p", "pkg/net/libp2p", "Gen_Libp2p", "Trace_Libp2p", "separate")
         f_loc = ex.submit(channel, "local", "pkg/net/local", "Gen_Local", "Trace_Local", "inline")
         f_flt = ex.submit(filter_alone)
         results = [f.result() for f in (f_mc, f_p2p, f_loc, f_flt)]   # re-raises Broken
+        f_big.result()
     negs, r_p2p, r_loc, r_flt = results
     ctx.extra["negative_variants"] = negs
 
